@@ -45,6 +45,11 @@ pub struct Case {
     pub prologue_len: usize,
     /// content seed for payloads/psks/prologue (keys and ephemerals are really random)
     pub seed: u64,
+    /// Some(k): instead of random keys, the k-th pre-computed key pair whose DH output has leading /
+    /// trailing zero bytes is used for the static AND (through a scripted RNG) the ephemeral keys -
+    /// values the key generator and the RNG can produce, with probability 2^-8 .. 2^-16 per DH
+    #[serde(default)]
+    pub shaped: Option<u64>,
 }
 
 fn name_of(c: &Case) -> String {
@@ -70,12 +75,27 @@ pub fn oracle(c: &Case, acc: &mut Acc) -> CaseResult {
     // static keys from the library's own key generation
     let rng_k = SharedRng::os();
     let kb = snow::Builder::with_resolver(params(&name)?, Box::new(VResolver::new(Backend::Default, Some(rng_k.clone()), None)));
-    let ki = kb.generate_keypair().map_err(|e| Fail::new(format!("{name}: generate_keypair: {e:?}")))?;
-    let kr = kb.generate_keypair().map_err(|e| Fail::new(format!("{name}: generate_keypair: {e:?}")))?;
+    let mut ki = kb.generate_keypair().map_err(|e| Fail::new(format!("{name}: generate_keypair: {e:?}")))?;
+    let mut kr = kb.generate_keypair().map_err(|e| Fail::new(format!("{name}: generate_keypair: {e:?}")))?;
+    let shaped_keys = c.shaped.and_then(|k| {
+        let seed = k * 32 + 5;
+        Some((golden_shaped(c.suite.dh, seed, true)?, golden_shaped(c.suite.dh, seed, false)?))
+    });
+    if let Some((a, b)) = shaped_keys {
+        ki = snow::Keypair { private: a.to_vec(), public: crate::refcrypto::dh_pub(c.suite.dh, &a).ok_or("shaped key")? };
+        kr = snow::Keypair { private: b.to_vec(), public: crate::refcrypto::dh_pub(c.suite.dh, &b).ok_or("shaped key")? };
+    }
     let prologue = expand(c.seed, 7, c.prologue_len);
     let psks: Vec<(u8, [u8; 32])> = c.psks.iter().map(|n| (*n, crate::engine::expand32(c.seed, 100 + *n as u64))).collect();
-    let rng_i = SharedRng::os();
-    let rng_r = SharedRng::os();
+    let (rng_i, rng_r) = match shaped_keys {
+        Some((a, b)) => {
+            let (ri, rr) = (SharedRng::seeded(1, false), SharedRng::seeded(2, false));
+            ri.script(&a);
+            rr.script(&b);
+            (ri, rr)
+        },
+        None => (SharedRng::os(), SharedRng::os()),
+    };
     let build = |init: bool| -> Result<snow::HandshakeState, Fail> {
         let (me, peer, be, rng) = if init { (&ki, &kr, c.backend_i, &rng_i) } else { (&kr, &ki, c.backend_r, &rng_r) };
         let mut b = snow::Builder::with_resolver(params(&name)?, Box::new(VResolver::new(be, Some(rng.clone()), None)));
@@ -254,6 +274,7 @@ fn mk_case(hs: &HsName, suite: rn::Suite, i: usize, seed: u64) -> Case {
         wild_nonces: i % 5 == 0,
         prologue_len: [0, 5, 200][i % 3],
         seed: mix(seed, 31 + i as u64),
+        shaped: None,
     }
 }
 
@@ -284,6 +305,7 @@ fn case_strategy(names: Arc<Vec<HsName>>, suites: Arc<Vec<rn::Suite>>) -> impl S
                 wild_nonces: wild,
                 prologue_len: [0usize, 1, 32, 64, 129, 1000][pick(pl, 6)],
                 seed,
+                shaped: None,
             }
         })
 }
@@ -337,6 +359,48 @@ pub fn run(ctx: &Ctx) {
         );
     }
     ctx.run_prop("random_sessions", ctx.tier.pick(20_000, 100_000), || case_strategy(names.clone(), suites.clone()), oracle);
+    // DH outputs of rare shapes (leading / trailing zero bytes) for every pattern
+    {
+        let mut shaped = Vec::new();
+        let mut k = 0u64;
+        for (hi, hs) in some_hs_names(ctx.tier.pick(1, 3)).into_iter().enumerate() {
+            for dh in crate::refcrypto::DHS {
+                for pair in 0..8u64 {
+                    k += 1;
+                    if ctx.tier.pick((pair as usize + hi) % 2 == 1, false) {
+                        continue;
+                    }
+                    let suite = *suites.iter().filter(|s| s.dh == dh).nth((k % 12) as usize).unwrap();
+                    let mut c = mk_case(&hs, suite, k as usize, seed);
+                    c.backend_i = Backend::Default;
+                    c.backend_r = Backend::Default;
+                    c.transport.truncate(3);
+                    c.shaped = Some(pair);
+                    shaped.push(c);
+                }
+            }
+        }
+        ctx.run_list("shaped_dh_outputs", &shaped, false, oracle);
+    }
+    // long sessions: tens of thousands of small messages in one direction, few in the other
+    {
+        let mut long = Vec::new();
+        for (k, n) in ctx.tier.pick(vec![300usize, 700, 66000], vec![300usize, 700, 66000, 66000, 200000]).into_iter().enumerate() {
+            for (j, pat) in ["NN", "XX", "N", "IK"].iter().enumerate() {
+                let hs = HsName { pattern: pat.to_string(), psks: vec![] };
+                let suite = suites[(k * 7 + j * 5) % suites.len()];
+                let mut c = mk_case(&hs, suite, k * 4 + j, seed);
+                // mostly i->r; every 97th message the other way; tiny payloads
+                c.transport = (0..n).map(|m| (m % 97 != 96, (m % 3) as u8)).collect();
+                c.stateless_i = false;
+                c.stateless_r = j % 2 == 1;
+                c.delivery = 0;
+                c.wild_nonces = false;
+                long.push(c);
+            }
+        }
+        ctx.run_list("long_sessions", &long, false, oracle);
+    }
     #[cfg(feature = "hfs")]
     {
         let cases = hfs_cases(seed);
